@@ -606,6 +606,21 @@ public:
         OS << json::Value(std::move(o)) << "\n";
     }
 
+    // out-of-line definitions of static data members (attribute tables are built this way)
+    void emitVar(const VarDecl *vd) {
+        if (!vd->isStaticDataMember() || !vd->isOutOfLine() || !vd->isThisDeclarationADefinition() || !vd->getInit()) return;
+        std::string file; unsigned line = 0;
+        if (!inRoots(vd->getLocation(), &file, &line)) return;
+        if (!vd->getDeclContext()->isDependentContext()) return;   // patterns only: instantiations repeat them
+        std::string key = qnameOf(vd) + "@" + std::to_string(line);
+        if (!EnumSeen.insert("var:" + key).second) return;
+        json::Object o;
+        o["rec"] = "var"; o["q"] = qnameOf(vd); o["file"] = file; o["line"] = (int64_t)line; o["t"] = typeStr(vd->getType());
+        FnState st;
+        o["init"] = tree(st, vd->getInit());
+        OS << json::Value(std::move(o)) << "\n";
+    }
+
     void emitEnum(const EnumDecl *ed) {
         if (!ed->isThisDeclarationADefinition()) return;
         std::string file; unsigned line = 0;
@@ -659,6 +674,7 @@ public:
     bool VisitFunctionDecl(FunctionDecl *fd) { E.emitFunction(fd); return true; }
     bool VisitCXXRecordDecl(CXXRecordDecl *rd) { E.emitRecord(rd); return true; }
     bool VisitEnumDecl(EnumDecl *ed) { E.emitEnum(ed); return true; }
+    bool VisitVarDecl(VarDecl *vd) { E.emitVar(vd); return true; }
 private:
     Emitter &E;
 };
